@@ -194,7 +194,7 @@ class ForceBias(SingleDriver):
         Parameters
         ----------
         value : dict[str, float] | ShapedMasses | float
-            The power value(s). If a dict, keys are element symbols and values are the powers. If ShapedMasses, it must have shape (len(atoms), 3). If a float, the same value is used for all atoms.
+            The power value(s). If a dict, keys are element symbols and values are the powers. If ShapedMasses, it must have shape (len(atoms), 3). If a float (or an integer), the same value is used for all atoms.
 
         Raises
         ------
@@ -212,6 +212,9 @@ class ForceBias(SingleDriver):
 
         elif isinstance(value, float | np.floating):
             self._masses_scaling_power = value
+        elif isinstance(value, int | np.integer) and not isinstance(value, bool):
+            # the powers 0 (no mass scaling) and 1 written as integers
+            self._masses_scaling_power = float(value)
         elif isinstance(value, np.ndarray):
             if value.shape != size:
                 raise ValueError(
